@@ -249,10 +249,16 @@ def make_backed(rng, kind, n, d_hint):
         k = max(2, d_hint // 2)
         X = None
         base = spectrum_data(rng, n, 2 * k, True)
-        if rng.random() < 0.35:
+        r_ = rng.random()
+        if r_ < 0.3:
             # landmark coordinates stored as integer pixel positions: the model is the model of those numbers
             base = np.round(base * 40.0)
             return [ms.PointCloud(row.reshape(k, 2).astype(np.int64)) for row in base], base
+        if r_ < 0.45:
+            # only the first annotation (the template on the pixel grid) is integer-typed, the others are floating point
+            base = base * 40.0
+            base[0] = np.round(base[0])
+            return [ms.PointCloud(base[0].reshape(k, 2).astype(np.int64))] + [ms.PointCloud(row.reshape(k, 2)) for row in base[1:]], base
         samples = [ms.PointCloud(row.reshape(k, 2)) for row in base]
         return samples, base
     if kind == "image":
